@@ -3,4 +3,5 @@ package props
 
 import (
 	_ "verifharness/internal/props/c01"
+	_ "verifharness/internal/props/c04"
 )
